@@ -15,14 +15,15 @@ PROPS['C16'] = dict(
                '(Eigen\'s default vectorised float sqrt is 1-2 ulp off and differs from the scalar path). The zero matrix is left to C13; leaks in the constructor to C12.',
     units=[dict(name='c16_d', src='c16_svd.cpp', flags=['-DVF_REAL=double']), dict(name='c16_f', src='c16_svd.cpp', flags=['-DVF_REAL=float'])],
     runs=dict(
-        quick=[dict(unit='c16_d', cases=6000, workers=2), dict(unit='c16_f', cases=6000, workers=2)],
+        quick=[dict(unit='c16_d', cases=15000, workers=2), dict(unit='c16_f', cases=15000, workers=2)],
         thorough=[dict(unit='c16_d', cases=60000, workers=8), dict(unit='c16_f', cases=60000, workers=8)],
     ),
-    min=dict(quick=dict(cases=20000, nontrivial=8000,
-                        classes={'shape/tall': 3000, 'shape/wide': 3000, 'shape/square': 3000, 'form/dense_rowmajor': 2000, 'form/sparse_colmajor': 2000, 'form/sparse_rowmajor': 2000,
-                                 'history_with_2+_computes': 8000, 'factors_requested_after_a_later_compute_(cache_populated_earlier)': 3000, 'ncomp_beyond_exact_rank': 200,
-                                 'ncomp_beyond_numerical_rank_of_the_Gram_matrix': 500, 'partial_convergence': 500, 'k<nconv': 5000, 'k>nconv': 5000,
-                                 'largest_asserted/ncv=p/all_converged': 3000, 'largest_asserted/ncv<p_separated/all_converged': 2000, 'some_requested_sigma_below_1e-4_normA': 1000}),
+    min=dict(quick=dict(cases=50000, nontrivial=25000,
+                        classes={'shape/tall': 8000, 'shape/wide': 8000, 'shape/square': 8000, 'form/dense_rowmajor': 5000, 'form/sparse_colmajor': 5000, 'form/sparse_rowmajor': 5000,
+                                 'form/dense_colmajor_block': 5000, 'history_with_2+_computes': 20000, 'factors_requested_after_a_later_compute_(cache_populated_earlier)': 8000,
+                                 'ncomp_beyond_exact_rank': 500, 'ncomp_beyond_numerical_rank_of_the_Gram_matrix': 1500, 'partial_convergence': 1500, 'k<nconv': 15000, 'k>nconv': 15000,
+                                 'largest_asserted/ncv=p/all_converged': 10000, 'largest_asserted/ncv<p_separated/all_converged': 5000, 'some_requested_sigma_below_1e-4_normA': 2500,
+                                 'class/exact_low_rank': 3000, 'class/repeated': 3000, 'class/graded': 3000}),
              thorough=dict(cases=900000, nontrivial=400000)),
     rule='case = (scalar type, shape, matrix class, p = min(m,n), extra rows/columns, content seed / class parameters, scale, ncomp, ncv, storage form, 1-3 computes each with (default | maxit, tol), '
          'optional matrix_U(k)/matrix_V(k) after each compute (always after the last) with k in {ncomp, ncomp+3, nconv-1, drawn}, call order). Every compute() in the history is checked. '
